@@ -575,7 +575,51 @@ def make_payload(ctx, pid, executed=False):
         async def payload(*args, **kwargs):
             return await run_async(ctx, ("p", pid), spec, args, kwargs, executed)
     payload.__name__ = "payload_%d" % pid
-    return payload
+    return shaped(payload, spec.get("shape"), spec["flavour"] != "threading")
+
+
+def shaped(fn, shape, is_async):
+    """the same payload as another kind of callable: anything that can be called without arguments and, for
+    the coroutine flavours, returns an awaitable is a payload"""
+    import functools
+    if not shape or shape == "plain":
+        return fn
+    if shape == "wrapped":            # a coroutine function behind an ordinary decorator
+        @functools.wraps(fn)
+        def wrapper(*args, **kwargs):
+            return fn(*args, **kwargs)
+        del wrapper.__wrapped__
+        return wrapper
+    if shape == "lambda":
+        lam = lambda *args, **kwargs: fn(*args, **kwargs)      # noqa: E731
+        lam.__name__ = fn.__name__
+        return lam
+    if shape == "object":
+        if is_async:
+            class CallableObject(object):
+                async def __call__(self, *args, **kwargs):
+                    return await fn(*args, **kwargs)
+        else:
+            class CallableObject(object):
+                def __call__(self, *args, **kwargs):
+                    return fn(*args, **kwargs)
+        obj = CallableObject()
+        obj.__name__ = fn.__name__
+        return obj
+    if shape == "method":
+        class Holder(object):
+            def __init__(self):
+                self.fn = fn
+            if is_async:
+                async def payload(self, *args, **kwargs):
+                    return await self.fn(*args, **kwargs)
+            else:
+                def payload(self, *args, **kwargs):
+                    return self.fn(*args, **kwargs)
+        h = Holder()
+        Holder.payload.__name__ = fn.__name__
+        return h.payload
+    raise RuntimeError("bad payload shape %r" % (shape,))
 
 
 # ------------------------------------------------------------------------------------------
@@ -698,6 +742,11 @@ def main():
     def watchdog():
         if not done.wait(scn.get("timeout", 10)):
             log("Timeout")
+            try:        # where is everybody?  (stderr; kept by the driver for diagnosis)
+                import faulthandler
+                faulthandler.dump_traceback(file=sys.stderr, all_threads=True)
+            except Exception:  # noqa
+                pass
             emit(scn)
             os._exit(3)
     threading.Thread(target=watchdog, daemon=True).start()
